@@ -52,7 +52,7 @@ CLAIMED.update({
         technique="Lean 4 proof (per-span integer program, zipper invariants) + bounded-exhaustive and random differential correspondence, clauses evaluated on the implementation's output",
         ref="DESIGN.md §5 C10"),
     "C13": dict(
-        text="Proof (partial): the text passes and the token loop of full_cleaning are modelled (token list as input, recorded from the real tokenizer); for all texts / all token lists: no blank line in the result, a COMMENT is emitted iff it is a hint (then normalised), hints are kept (first line included), exactly the docstring-like STRING statements become `pass`, the leading-comment pass removes only non-hint # lines, the blank-line and useless-pass passes are idempotent. Models mirror fixes e959b88 ff0b849 decc026 2488bc4 466f14f. One recorded finding (F20, main guard) with partial theorem + counterexample.",
+        text="Proof (partial): the text passes and the token loop of full_cleaning are modelled (token list as input, recorded from the real tokenizer); for all texts / all token lists: no blank line in the result, a COMMENT is emitted iff it is a hint (then normalised), hints are kept (first line included), exactly the docstring-like STRING statements become `pass`, the leading-comment pass removes only non-hint # lines, the blank-line and useless-pass passes are idempotent. C13_main_guard (only the guarded blocks go, the code after them survives; parser ranges as oracle), C13_rows_not_glued / C13_line_open (a continuation line at column 0 is not glued), C13_fstring_braces. Models mirror fixes e959b88 ff0b849 decc026 2488bc4 466f14f 9ee7189 55c4b14; no open finding.",
         note="Exercised only (depend on CPython's tokenizer/parser): valid Python, same AST modulo the four kinds of noise, noise invariance, whole-cleaning idempotence — checked on generated and corpus programs, a failure is a violation with the program as replay. Regex transcriptions validated bounded-exhaustively against the real engine.",
         technique="Lean 4 proofs over a token-list model + bounded-exhaustive regex validation + differential/metamorphic correspondence with Cleanup",
         ref="DESIGN.md §5 C13"),
@@ -82,18 +82,18 @@ CLAIMED.update({
         technique="Lean 4 proofs over a character-level model (round trip by induction over decorated lines, LIFO nesting) + bounded-exhaustive regex/layout validation + end-to-end correspondence with recorded engine answers",
         ref="DESIGN.md §5 C12"),
     "C02": dict(
-        text="Proof (partial): C02_hint_spans (for every text without the separators 0x1c-0x1f, every span scheduled by a hint lies within 1..lineCount of the STORED source), C02_hint_spans_centrifugated, C02_error_span (the ast_construction error label spans 1..lineCount), C02_binding_span (a computed span is the pair of lines of the captured POS), C02_validSpanB_iff. Everything else in the property — the 171 other features, SQL-derived spans, CPython's line numbers, exactly one meta/program — is MONITORED: tag and collect are run under both cleanup strategies on generated and corpus programs and 1 <= start <= end <= nlines is evaluated on every printed/stored span.",
-        note="Open findings printed as KNOWN-FINDING: F10 (a lone `pass`/`import` has no meta/program), F07d (a 0x1c-0x1f separator before a hint on the first/last line). Models mirror fixes 2658798 c744e6b 069b3bf 57ac228 d0d94f6.",
+        text="Proof (partial): C02_hint_spans (for EVERY text, every span scheduled by a hint lies within 1..lineCount of the STORED source), C02_hint_spans_centrifugated, C02_error_span (the ast_construction error label spans 1..lineCount), C02_binding_span (a computed span is the pair of lines of the captured POS), C02_node_span / C02_node_span_pipeline (on what flatten_ast returns for a well-formed tree with pre-order-monotone lines, every `node` match spans start <= end), C02_whole_span, C02_meta_program_once (whole_span yields at most one occurrence, hence at most one meta/program), C02_validSpanB_iff. Everything else in the property — the other regex features, SQL-derived spans, CPython's line numbers — is MONITORED: tag and collect are run under both cleanup strategies on generated and corpus programs and 1 <= start <= end <= nlines is evaluated on every printed/stored span.",
+        note="Open findings printed as KNOWN-FINDING: F31 (labels derived by SQL from hint-added labels carry the empty path, so start > end is possible), F32 (a string literal containing `_pos=99:` is captured by whole_span). PreorderMonotone is a hypothesis of C02_node_span stronger than needed (holds on about 3/4 of the real trees; the harness evaluates the span clause on every tree). Models mirror fixes 2658798 c744e6b 069b3bf 57ac228 d0d94f6 4327ef9 80f9da8 8ca25b9.",
         technique="Lean 4 proofs for hint, error and binding spans + property monitoring of every span through tag/collect",
         ref="DESIGN.md §5 C02"),
     "C15": dict(
-        text="Proof on a generic-tree model of flatten_ast: the dump is the pre-order enumeration with every node, list length and scalar exactly once under its root-to-node path (C15_preorder_once, C15_flatten_eq); the `_pos` path is a prefix-free code and string prefix <=> nesting (C15_path_code, C15_path_nesting, C15_path_root); two expressions get the same `_hash` iff their hashed reprs are equal (C15_hash); the result is independent of the hash-factory state, for any sequence of flattenings (C15_stateless, C15_sequence); four of the six post-processing passes (suppress_kinds, suppress_alias_pos, suppress_posonlyargs — also composed — and unquote) are proved equal to tree-level tweaks under local clauses; C15_async_body_last and C15_bytes_kind_agrees mirror fixes d0d94f6 c370a5d.",
-        note="Partial: backport_all_constants, simplify_negative_literals and the composition of all six passes (C15_tweaks_full, stated as a def) are exercised only, as is 'same repr <=> same expression up to load/store context'. Trusted: the exporter of real ast trees; the hand transcription of the six regexes (validated token-level bounded-exhaustively against the real engine each run); CPython's parser. Open findings F15a-d (text-level regexes acting inside string/bytes constants).",
+        text="Proof on a generic-tree model of flatten_ast: the dump is the pre-order enumeration with every node, list length and scalar exactly once under its root-to-node path (C15_preorder_once, C15_flatten_eq); the `_pos` path is a prefix-free code and string prefix <=> nesting (C15_path_code, C15_path_nesting, C15_path_root); two expressions get the same `_hash` iff their hashed reprs are equal (C15_hash); the result is independent of the hash-factory state, for any sequence of flattenings (C15_stateless, C15_sequence); each of the six post-processing passes (suppress_kinds, suppress_alias_pos, suppress_posonlyargs, backport_all_constants, simplify_negative_literals, unquote) is proved equal to a tree-level tweak under local Bool clauses, and their composition in pipeline order is the dump of `stage6 t` (C15_tweaks_full, C15_flatten_tweaked on what flatten_ast returns); C15_async_body_last, C15_bytes_kind_agrees, C15_kind_in_value_kept, C15_unquote_anchored mirror fixes d0d94f6 c370a5d 83ae3f3 0ac09ad; the exporter mirrors fix a00cdad (remove_context skips quoted literals).",
+        note="Partial: the equality of the staged form `stage6 t` with the one-shot specification `tweak [] t` is exercised on every real tree (driver op stage6_eq_tweak; a disagreement on a well-formed tree is a broken tie), as is 'same repr <=> same expression up to load/store context'. wfStages6 holds on about 97% of the real trees of a run (the rest carry adversarial literals). Trusted: the exporter of real ast trees; the hand transcription of the six regexes (validated token-level bounded-exhaustively against the real engine each run); CPython's parser.",
         technique="Lean 4 structural induction on nested trees, prefix-code lemmas, state-invariant refinement of the hash factory + differential correspondence on corpus, grammar-generated (all 107 ast classes of 3.12) and adversarial programs",
         ref="DESIGN.md §5 C15"),
     "C01": dict(
-        text="Proof (partial): C01_node_labels — on the dump of any well-formed tree, the hand matcher of spec.md's overlapped `node` pattern yields exactly one (type, own line) per positioned node, in pre-order, and nothing else for positioned types; C01_binding_own_line / C01_binding_start (get_bindings starts on the node's own line); C01_same_text (tagging depends on the program only through the stored source). The parser, cleaning and the link flatten_ast = dump(tweak) are tied by C15 and by end-to-end correspondence through ProgramParser, cli_tag and TagDatabase under both cleanup strategies against the multiset computed from ast.parse(stored_source).",
-        note="Trusted: the hand matcher of the spec.md pattern (validated against the real regex engine each run; domain: at most one `/_type=` per line), CPython's parser, the C15 tie. Open findings F15a, F15d, F17 (a string constant containing `_pos=` crashes pos_to_span).",
+        text="Proof (partial): C01_node_labels — on the dump of any well-formed tree, the hand matcher of spec.md's overlapped `node` pattern yields exactly one (type, own line) per positioned node, in pre-order, and nothing else for positioned types; C01_node_labels_pipeline (the same on what flatten_ast returns, through C15_flatten_tweaked); C01_binding_own_line / C01_binding_start (get_bindings starts on the node's own line); C01_same_text (tagging depends on the program only through the stored source). The parser and cleaning are tied by end-to-end correspondence through ProgramParser, cli_tag and TagDatabase under both cleanup strategies against the multiset computed from ast.parse(stored_source).",
+        note="Trusted: the hand matcher of the spec.md pattern (validated against the real regex engine each run; domain: at most one `/_type=` per line), CPython's parser, the C15 tie. Open finding F17 (a string constant containing `_pos=` crashes pos_to_span).",
         technique="Lean 4 proofs over the tree model + string-occurrence lemmas for the regex transcription + matcher-vs-engine and end-to-end differential correspondence",
         ref="DESIGN.md §5 C01"),
 })
